@@ -9,6 +9,7 @@ CONSTANTS
   AllowNil = FALSE
   ChainOnly = FALSE
   WriteNewest = FALSE
+  AllowReduce = FALSE
   AllowCopy = FALSE
   EarlyStop = FALSE
   Emit = FALSE
